@@ -43,7 +43,7 @@ def to_dates(specs: Sequence[Dict[str, Any]]) -> List[Optional[date]]:
     return out
 
 
-def check_balances(specs: Sequence[Dict[str, Any]], computed: Any, td: Optional[date]) -> List[str]:
+def check_balances(specs: Sequence[Dict[str, Any]], computed: Any, td: Optional[date], reconcile: bool = True) -> List[str]:
     problems: List[str] = []
     want = MA.balances(specs, td)
     got: Dict[Tuple[str, str], Dict[str, Fraction]] = {}
@@ -63,6 +63,8 @@ def check_balances(specs: Sequence[Dict[str, Any]], computed: Any, td: Optional[
             for f in ("acquired", "sent", "received", "final"):
                 if got[k][f] != want[k][f]:
                     problems.append(f"account {k}: {f} balance {got[k][f]} != {want[k][f]} from its transactions")
+    if not reconcile:
+        return problems
     # reconciliation with the lot matcher: sum of final balances == acquired lots - consumed fractions (all dated <= to-date)
     total_final = sum((v["final"] for v in got.values()), Fraction(0))
     acquired = sum((F(t.crypto_in) for t in computed.in_transaction_set), Fraction(0))
@@ -92,7 +94,7 @@ def worker(task: Tuple[Any, ...]) -> Stats:
                 variants.append((h2, H.materialize(h2, row_order=row_order, base=datetime(2020, 3, 1, 18 if tz > 0 else 2, 0, 0, tzinfo=timezone.utc))))
         for h2, specs in variants:
             if specs is not None:
-                st.merge(judge_history(h2, specs, schedules))
+                st.merge(judge_history(h2, specs, schedules, from_dates=(_dev == "from")))
     return st
 
 
@@ -108,7 +110,7 @@ def bundled_worker(chunk: List[Tuple[str, str]]) -> Stats:
     return st
 
 
-def judge_history(hist: History, specs: List[Dict[str, Any]], schedules: Sequence[Any], name: Optional[str] = None) -> Stats:
+def judge_history(hist: History, specs: List[Dict[str, Any]], schedules: Sequence[Any], name: Optional[str] = None, from_dates: bool = False) -> Stats:
     from rp2verif.seams import compute as C
 
     st = Stats()
@@ -131,6 +133,20 @@ def judge_history(hist: History, specs: List[Dict[str, Any]], schedules: Sequenc
                                       what=f"{sched_str(sch)}{' -n' if neg else ''} -t {td}: {hs} :: {type(out.error).__name__}: {out.error}"))
                     continue
                 problems = check_balances(specs, out.computed, td)
+                if from_dates and not problems and not neg:
+                    # a from-date only hides rows: balances still run from the beginning of the history up to the to-date
+                    for fd in sorted({parse_ts(s2["timestamp"]).date() for s2 in specs} | {max(parse_ts(s2["timestamp"]).date() for s2 in specs) + timedelta(days=1)}):
+                        if td is not None and fd > td:
+                            continue
+                        st.inc("evaluations")
+                        st.inc("from_date_runs")
+                        fout = C.run_window(specs, sch, fd, td, allow_negative_balances=neg)
+                        if not fout.ok:
+                            problems = [f"rejected with -f {fd}: {type(fout.error).__name__}: {fout.error}"]
+                            break
+                        problems = [f"with -f {fd}: {x}" for x in check_balances(specs, fout.computed, td, reconcile=False)]
+                        if problems:
+                            break
                 if touched >= 2:
                     st.inc("distinct_nontrivial")
                 if problems:
@@ -239,10 +255,12 @@ def plan(tier: str) -> List[Dict[str, Any]]:
         return [{"name": "3 accounts", "schedules": [((1970, "fifo"),), ((1970, "hifo"),)], "steps": STEPS, "depth": 3, "dev": 0, "group": 1},
                 {"name": "3 accounts, lifo (depth 2)", "schedules": [((1970, "lifo"),)], "steps": STEPS, "depth": 2, "dev": 0, "group": 1},
                 {"name": "3 accounts, dust-sized amounts (x 1e-6)", "schedules": [((1970, "fifo"),)], "steps": ("d",), "depth": 3, "dev": "dust", "group": 1},
-                {"name": "3 accounts, every timestamp at -05:00 / +09:00 (own date != UTC date)", "schedules": [((1970, "fifo"),)], "steps": ("d",), "depth": 3, "dev": "tz", "group": 1}]
+                {"name": "3 accounts, every timestamp at -05:00 / +09:00 (own date != UTC date)", "schedules": [((1970, "fifo"),)], "steps": ("d",), "depth": 3, "dev": "tz", "group": 1},
+                {"name": "3 accounts, every from-date x every to-date (a from-date never changes a balance)", "schedules": [((1970, "fifo"),)], "steps": ("d",), "depth": 3, "dev": "from", "group": 1}]
     return [{"name": "3 accounts", "schedules": [((1970, "fifo"),), ((1970, "hifo"),)], "steps": STEPS, "depth": 3, "dev": 0, "group": 1},
             {"name": "3 accounts, dust-sized amounts (x 1e-6)", "schedules": [((1970, "fifo"),), ((1970, "hifo"),)], "steps": STEPS, "depth": 3, "dev": "dust", "group": 1},
             {"name": "3 accounts, every timestamp at -05:00 / +09:00 (own date != UTC date)", "schedules": [((1970, "fifo"),), ((1970, "hifo"),)], "steps": STEPS, "depth": 3, "dev": "tz", "group": 1},
+            {"name": "3 accounts, every from-date x every to-date (a from-date never changes a balance)", "schedules": [((1970, "fifo"),), ((1970, "hifo"),)], "steps": STEPS, "depth": 3, "dev": "from", "group": 1},
             {"name": "3 accounts, depth 4", "schedules": [((1970, "fifo"),)], "steps": STEPS, "depth": 4, "dev": 0, "group": 1, "from_depth": 4}]
 
 
@@ -324,6 +342,12 @@ def replay(path: str) -> int:
         return 0
     out = C.run_window(p["specs"], [tuple(x) for x in p["schedule"]], None, td, allow_negative_balances=p["allow_negative"])
     problems = [f"{type(out.error).__name__}: {out.error}"] if not out.ok else check_balances(p["specs"], out.computed, td)
+    if not problems:
+        # the case may come from the from-date phase: the whole node again, with every from-date
+        from rp2verif.lotrun import _to_tuple
+
+        st = judge_history(_to_tuple(p["hist"]), p["specs"], [[tuple(x) for x in p["schedule"]]], from_dates=True)
+        problems = [v["what"] for v in st.violations]
     if problems:
         print(f"VIOLATION property={PROP} replay={path}\n  {problems[0]}")
         return 1
